@@ -266,29 +266,31 @@ def _r2_addpath(model: Model, run: Run, folder: Folder, neg: FuncInfo) -> None:
     recv_c = folder.class_attr(RP, 'RECEIVE')
     run.check(send_c == 2 and recv_c == 1, RP, 'SEND=%s RECEIVE=%s' % (send_c, recv_c), model.cls(RP).loc(), 'RFC 7911 4: 1 = receive, 2 = send')
     params = [a.arg for a in setup.node.args.args]
-    # local -> which open it reads
-    src: dict[str, str] = {}
-    for n in walk_no_nested(setup.node):
-        if isinstance(n, ast.Assign) and isinstance(n.targets[0], ast.Name):
-            txt = norm(n.value)
-            if 'ADD_PATH' in txt:
-                if 'received_open' in txt:
-                    src[n.targets[0].id] = 'recv'
-                elif 'sent_open' in txt:
-                    src[n.targets[0].id] = 'sent'
-    # boolean locals: name -> (side, mask)
-    bools: dict[str, tuple[str, str]] = {}
-    for n in walk_no_nested(setup.node):
-        if isinstance(n, ast.Assign) and isinstance(n.targets[0], ast.Name):
-            for b in ast.walk(n.value):
-                if isinstance(b, ast.BinOp) and isinstance(b.op, ast.BitAnd):
-                    mask = (dotted(b.right) or dotted(b.left) or '').rsplit('.', 1)[-1]
-                    base = None
-                    for x in ast.walk(b):
-                        if isinstance(x, ast.Name) and x.id in src:
-                            base = src[x.id]
-                    if base and mask in ('SEND', 'RECEIVE'):
-                        bools[n.targets[0].id] = (base, mask)
+    from ..alpha import Loc
+
+    loc = Loc(model, setup)
+    side_of_param = {params[1]: 'recv', params[2]: 'sent'} if len(params) >= 3 else {}
+
+    def and_terms(e: ast.AST) -> tuple[set, bool]:
+        """{(side, mask)} of the `<capability of one OPEN> & SEND|RECEIVE` tests in e once its locals are written out,
+        and whether e is their plain conjunction (bool() wrappers aside, no `or` / `not`)"""
+        x = loc.expanded(e, depth=8)
+        got = set()
+        for b_ in ast.walk(x):
+            if isinstance(b_, ast.BinOp) and isinstance(b_.op, ast.BitAnd):
+                for m_, o_ in ((b_.right, b_.left), (b_.left, b_.right)):
+                    mask = (dotted(m_) or '').rsplit('.', 1)[-1]
+                    if mask not in ('SEND', 'RECEIVE'):
+                        continue
+                    who = {side_of_param[n_.id] for n_ in ast.walk(o_) if isinstance(n_, ast.Name) and n_.id in side_of_param}
+                    got.add((who.pop() if len(who) == 1 else '?', mask))
+        top = x
+        while isinstance(top, ast.Call) and isinstance(top.func, ast.Name) and top.func.id == 'bool' and len(top.args) == 1:
+            top = top.args[0]
+        conj = isinstance(top, ast.BoolOp) and isinstance(top.op, ast.And)
+        conj = conj and not any((isinstance(n_, ast.BoolOp) and isinstance(n_.op, ast.Or)) or (isinstance(n_, ast.UnaryOp) and isinstance(n_.op, ast.Not)) for n_ in ast.walk(x))
+        return got, conj
+
     want = {'_send': {('sent', 'SEND'), ('recv', 'RECEIVE')}, '_receive': {('sent', 'RECEIVE'), ('recv', 'SEND')}}
     for field, w in want.items():
         st = None
@@ -298,11 +300,7 @@ def _r2_addpath(model: Model, run: Run, folder: Folder, neg: FuncInfo) -> None:
         if st is None:
             run.cannot('assignment to self.%s[k] not found' % field)
             continue
-        got = set()
-        conj = isinstance(st.value, ast.BoolOp) and isinstance(st.value.op, ast.And)
-        for x in ast.walk(st.value):
-            if isinstance(x, ast.Name) and x.id in bools:
-                got.add(bools[x.id])
+        got, conj = and_terms(st.value)
         run.check(got == w and conj, setup.qualname, 'self.%s[k] <= %s' % (field, sorted(got)), setup.loc(st), 'RFC 7911: %s needs %s' % (field, sorted(w)))
     # call site argument order
     calls = model.calls_to(neg.module, neg.node, 'RequirePath.setup')
@@ -313,12 +311,36 @@ def _r2_addpath(model: Model, run: Run, folder: Folder, neg: FuncInfo) -> None:
     run.check(ok, neg.qualname, 'addpath.setup(%s) matches parameters %s' % (', '.join(norm(a) for a in calls[0].args) if calls else '', params[1:]), neg.loc(calls[0]) if calls else neg.loc(), 'the received and the sent OPEN must not be swapped')
     req = model.func(NEG + '.required')
     run.analysed(req)
-    okr = False
+    # every value `required` can return, with the facts it is returned under (whichever way the choice is written)
+    from ..alpha import facts
+
+    rloc = Loc(model, req)
+    cases: list[tuple[set[str], str]] = []
+
+    def split(e: ast.AST, fs: set[str]) -> None:
+        if isinstance(e, ast.Call) and isinstance(e.func, ast.IfExp):
+            e = e.func
+        if isinstance(e, ast.IfExp):
+            from ..alpha import canon_fact
+
+            split(e.body, fs | {canon_fact(rloc, e.test, True, keep=['*'])})
+            split(e.orelse, fs | {canon_fact(rloc, e.test, False, keep=['*'])})
+            return
+        cases.append((fs, norm(e)))
+
     for n in walk_no_nested(req.node):
-        if isinstance(n, ast.If) and 'Direction.IN' in norm(n.test) and isinstance(n.test, ast.Compare) and isinstance(n.test.ops[0], ast.Eq):
-            t = n.body[-1]
-            e = n.orelse[-1] if n.orelse else None
-            okr = isinstance(t, ast.Return) and 'addpath.receive' in norm(t) and isinstance(e, ast.Return) and 'addpath.send' in norm(e)
+        if isinstance(n, ast.Return) and n.value is not None:
+            split(rloc.expanded(n.value, depth=6), facts(rloc, n))
+    IN_ = {'self.direction == Direction.IN', 'self.direction is Direction.IN', 'Direction.IN == self.direction', 'self.direction != Direction.OUT', 'self.direction is not Direction.OUT'}
+    OUT_ = {'self.direction != Direction.IN', 'self.direction is not Direction.IN', 'Direction.IN != self.direction', 'self.direction == Direction.OUT', 'self.direction is Direction.OUT'}
+    okr = len(cases) >= 2
+    for fs, txt in cases:
+        if 'addpath.receive' in txt and 'addpath.send' not in txt:
+            okr = okr and bool(fs & IN_) and not (fs & OUT_)
+        elif 'addpath.send' in txt and 'addpath.receive' not in txt:
+            okr = okr and bool(fs & OUT_) and not (fs & IN_)
+        else:
+            okr = False
     run.check(okr, req.qualname, 'IN -> receive, otherwise send', req.loc(), 'decoding (direction IN) uses the receive side of ADD-PATH, encoding the send side')
     # send()/receive() read their own table
     for nm in ('send', 'receive'):
@@ -391,46 +413,52 @@ def _ret_tuple(folder: Folder, fi: FuncInfo, r: ast.Return):
 def _r4_refusals(model: Model, run: Run, folder: Folder) -> None:
     val = model.func(NEG + '.validate')
     run.analysed(val)
-    found: dict[str, tuple] = {}
+    # each refusal is looked up by the facts it is returned under (locals written out, conjunctions split, == / != operands
+    # in one order), so it does not matter how the tests are nested or what the intermediate values are called
+    from ..alpha import facts
+
+    vloc = Loc(model, val)
+
+    def sym(f: str) -> str:
+        for op in (' == ', ' != '):
+            if op in f and not f.startswith('not '):
+                l_, r_ = f.split(op, 1)
+                return op.join(sorted((l_, r_)))
+        return f
+
+    rets: list[tuple[tuple, set[str], ast.Return]] = []
     for r in walk_no_nested(val.node):
         if not isinstance(r, ast.Return):
             continue
         pair = _ret_tuple(folder, val, r)
         if pair is None:
             continue
-        pos = [norm(t) for t, pol in flat_guards(val.node, r) if pol]
-        g = ' && '.join(pos)
-        if not pos:
-            continue
-        if any("RouterID('0.0.0.0')" in x for x in pos):
-            kind = 'router-id-zero'
-        elif any('router_id' in x for x in pos):
-            kind = 'router-id-collision'
-        elif any('peer_as' in x for x in pos):
-            kind = 'peer-as'
-        elif any('hold_time' in x for x in pos):
-            kind = 'hold-time'
-        else:
-            kind = 'other:' + g[-40:]
-        found[kind] = (pair, g, r)
-    want = {'peer-as': (2, 2), 'router-id-zero': (2, 3), 'router-id-collision': (2, 3), 'hold-time': (2, 6)}
-    for k, w in want.items():
-        got = found.get(k)
-        run.check(got is not None and got[0] == w, val.qualname, '%s -> %s' % (k, got[0] if got else None), val.loc(got[2]) if got else val.loc(), 'RFC 4271 6.2: %s must be refused with %s' % (k, w))
+        rets.append((pair, {sym(f) for f in facts(vloc, r)}, r))
+    want = {
+        'peer-as': ((2, 2), {'neighbor.session.peer_as', 'self.peer_as != neighbor.session.peer_as'}),
+        'router-id-zero': ((2, 3), {"self.received_open.router_id == RouterID('0.0.0.0')"}),
+        'router-id-collision': ((2, 3), {'self.received_open.router_id == neighbor.session.router_id'}),
+        'hold-time': ((2, 6), {'self.received_open.hold_time < HoldTime.MIN'}),
+    }
+    found: dict[str, tuple] = {}
+    for k, (w, need) in want.items():
+        need = {sym(f) for f in need}
+        got = [x for x in rets if need <= x[1]]
+        found[k] = got[0] if got else None
+        run.check(len(got) == 1 and got[0][0] == w, val.qualname, '%s -> %s' % (k, [x[0] for x in got]), val.loc(got[0][2]) if got else val.loc(), 'RFC 4271 6.2: %s (a refusal under %s) must be refused with %s' % (k, sorted(need), w))
     ht = found.get('hold-time')
     if ht is not None:
-        g = ht[1]
-        parts = [x.strip() for x in g.split('&&')]
-        ok = 'self.received_open.hold_time < HoldTime.MIN' in parts and 'self.received_open.hold_time' in parts
+        ok = 'self.received_open.hold_time' in ht[1]
         mn = folder.class_attr('exabgp.bgp.message.open.holdtime.HoldTime', 'MIN')
         run.check(bool(ok) and mn == 3, val.qualname, 'hold time refused when non-zero and below MIN=%s' % mn, val.loc(ht[2]), 'a hold time of 0 is acceptable, 1 and 2 are not')
     # collision guard needs the iBGP condition
     col = found.get('router-id-collision')
     if col is not None:
-        run.check('== neighbor.session.local_as' in col[1], val.qualname, 'router-id collision only inside one AS', val.loc(col[2]), 'RFC 6286: identical router-ids are refused only on iBGP')
+        ibgp = {f for f in col[1] if f.endswith(' == neighbor.session.local_as') or f.startswith('neighbor.session.local_as == ')}
+        run.check(bool(ibgp), val.qualname, 'router-id collision only inside one AS', val.loc(col[2]), 'RFC 6286: identical router-ids are refused only on iBGP')
         # "inside one AS" is decided with the peer's TRUE AS (self.peer_as, fixed up from the 4-byte capability), not with the
         # 2-octet My-AS field, which holds AS_TRANS for every AS above 65535
-        run.check('self.peer_as == neighbor.session.local_as' in col[1] and 'received_open.asn == neighbor.session.local_as' not in col[1], val.qualname, 'the iBGP test of the router-id collision uses the negotiated peer AS', val.loc(col[2]), 'Open.asn is the 2-octet field: between two speakers of a 4-byte AS it is 23456 on both sides and never equals the local AS, so an OPEN carrying our own BGP Identifier is accepted on an internal session')
+        run.check(sym('self.peer_as == neighbor.session.local_as') in col[1] and not any('received_open.asn' in f for f in ibgp), val.qualname, 'the iBGP test of the router-id collision uses the negotiated peer AS', val.loc(col[2]), 'Open.asn is the 2-octet field: between two speakers of a 4-byte AS it is 23456 on both sides and never equals the local AS, so an OPEN carrying our own BGP Identifier is accepted on an internal session')
     # validate_open
     vo = model.func('exabgp.reactor.protocol.Protocol.validate_open')
     run.analysed(vo)
@@ -561,14 +589,45 @@ def _r5_codec(model: Model, run: Run, folder: Folder) -> None:
     run.check(se == ['$d[0]', "$d[3:unpack('!H', $d[1:3])[0] + 3]", "$d[unpack('!H', $d[1:3])[0] + 3:]"] and be, ext_h.qualname, 'extended TLV: type(1) len(2) value, bounds checked %s' % se, ext_h.loc(), "must mirror pack('!BH', ...)")
     run.check(sk == ['$d[0]', '$d[2:$d[1] + 2]', '$d[$d[1] + 2:]'] and bk, kv_h.qualname, 'standard TLV: type(1) len(1) value, bounds checked %s' % sk, kv_h.loc(), 'must mirror bytes([k, len])')
     # capability TLVs keep the RFC 5492 layout code(1) len(1) value in BOTH forms: encoder and decoder
-    caps = [n for n, _ in afind('V_e = bytes([V_k, len(V_c)]) + V_c', pk.node)]
-    run.check(len(caps) == 2, pk.qualname, 'capability TLV = [code, len] + value in both forms', pk.loc(), 'RFC 5492 4: capability length is one octet, also inside RFC 9072 extended parameters')
+    # (the TLV may be built in the loop of each form, or once in a generator both loops iterate)
+    def is_cap_tlv(e: ast.AST | None) -> bool:
+        b_ = amatch('bytes([E_k, len(V_c)]) + V_c', e) if e is not None else None
+        return b_ is not None and folder.fold(ast.parse(str(b_['E_k']), mode='eval').body, mod, pk.cls) != 2
+
+    def yields_cap_tlvs(call: ast.AST) -> bool:
+        if not isinstance(call, ast.Call):
+            return False
+        for q in model.callees(pk.module, call):
+            h = model.funcs.get(q)
+            if h is None or h.module is not pk.module:
+                return False
+            ys = [y for y in walk_no_nested(h.node) if isinstance(y, (ast.Yield, ast.YieldFrom))]
+            hl = Loc(model, h)
+            if ys and all(isinstance(y, ast.Yield) and y.value is not None and is_cap_tlv(hl.resolve(y.value)) for y in ys):
+                run.analysed(h)
+                return True
+        return False
+
+    pl = Loc(model, pk)
+    n_caps = 0
+    for n in walk_no_nested(pk.node):
+        if isinstance(n, ast.AugAssign) and isinstance(n.op, ast.Add) and isinstance(n.target, ast.Name):
+            for pat in ('bytes([E_t, len(V_e)]) + V_e', "pack('!BH', E_t, len(V_e)) + V_e"):
+                b = amatch(pat, n.value)
+                if b is None or folder.fold(ast.parse(str(b['E_t']), mode='eval').body, mod, pk.cls) != 2:
+                    continue
+                ds = pl.defs.get(str(b['V_e']), [])
+                # the definition of the wrapped value that reaches this statement: the last one before it
+                ds = [d for d in ds if getattr(d[2], 'lineno', 0) <= n.lineno]
+                if ds and ((ds[-1][1] == 'assign' and is_cap_tlv(ds[-1][0])) or (ds[-1][1] == 'for' and yields_cap_tlvs(ds[-1][0]))):
+                    n_caps += 1
+    run.check(n_caps == 2, pk.qualname, 'capability TLV = [code, len] + value in both forms', pk.loc(), 'RFC 5492 4: capability length is one octet, also inside RFC 9072 extended parameters')
+    from ..alpha import facts
+
     inner = None
-    for n in walk_no_nested(un.node):
-        if isinstance(n, ast.If) and 'Parameter.CAPABILITIES' in norm(n.test):
-            for w in walk_no_nested(n):
-                if isinstance(w, ast.While):
-                    inner = w
+    for w in walk_no_nested(un.node):
+        if isinstance(w, ast.While) and any(f.endswith(' == Parameter.CAPABILITIES') for f in facts(ul, w)):
+            inner = w
     ok_inner = False
     if inner is not None:
         calls = [c for c in walk_no_nested(inner) if isinstance(c, ast.Call) and isinstance(c.func, ast.Name) and c.args and isinstance(c.args[0], ast.Constant) and c.args[0].value == 'capability']
@@ -639,5 +698,8 @@ def _r6_new(model: Model, run: Run) -> None:
         run.check(got == want, f.qualname, 'filled from the neighbor\'s %s' % (sorted(got) or 'scalar settings only'), f.loc(), 'the capability must list what the configuration enables for it (%s), not another of the neighbor\'s lists: %s' % (sorted(want) or 'no list', 'ADD-PATH for a family the operator left out of add-path { } makes the peers exchange path identifiers nobody asked for' if helper == '_addpath' else 'the OPEN advertises what was not configured'))
     # the 2-octet AS written into the OPEN
     mo = model.func(OPEN + '.make_open')
-    ok = 'asn.trans().pack_asn2()' in norm(mo.node)
+    ml = Loc(model, mo)
+    asn_p = mo.node.args.args[2].arg if len(mo.node.args.args) > 2 else 'asn'
+    ok = any(isinstance(c, ast.Call) and isinstance(c.func, ast.Attribute) and c.func.attr == 'pack_asn2' and ml.expand(c.func.value, depth=6) == '%s.trans()' % asn_p for c in walk_no_nested(mo.node))
+    ok = ok and not any(isinstance(c, ast.Call) and isinstance(c.func, ast.Attribute) and c.func.attr in ('pack_asn2', 'pack_asn4', 'pack_asn') and ml.expand(c.func.value, depth=6) != '%s.trans()' % asn_p for c in walk_no_nested(mo.node))
     run.check(ok, mo.qualname, 'My-AS field = asn.trans() packed on 2 octets', mo.loc(), 'RFC 6793: AS_TRANS in the fixed field for a 4-byte AS')
